@@ -1097,8 +1097,10 @@ def latent_conflict(fixture, hist):
         if op[0] == 'setm' and any(v == 'u1' for _, v in op[2]): return True
     return False
 
-DEEP_MODELS = ('o2m-req', 'o2m', 'o2o', 'o2o-req', 'm2m', 'sym_o2o', 'sym_m2m', 'self_o2m', 'casc3', 'mix3')
-def deep_model(name):
-    """one model per relationship kind (plus the two three-entity models in which two relationships meet) gets the deepest
-    histories of the thorough tier; the option variants of the same kinds are explored one level shallower"""
-    return name in DEEP_MODELS
+DEEP_MODELS = ('o2m', 'm2m')
+def deep_model(name, fixture='populated'):
+    """the deepest histories of the thorough tier (one more operation than everywhere else) are explored for the plain
+    one-to-many and many-to-many models from the populated fixture; every other (model, fixture) keeps the depth of the quick
+    tier, on the larger thorough catalogue. (A full depth-3 pass over ten models took over an hour per check on 16 cores and
+    could not be validated often enough to be trusted.)"""
+    return name in DEEP_MODELS and fixture == 'populated'
